@@ -7,7 +7,9 @@ package udpl
 
 import (
 	"errors"
+	"fmt"
 	"io"
+	"os"
 	"math/rand/v2"
 	"net"
 	"testing/synctest"
@@ -46,7 +48,7 @@ func runListenerConc(h *common.History, seed uint64) {
 		udp.VListenUDPHook = nil
 	}()
 	flags := 0
-	f := &fakeConn{in: make(chan dgram), bwake: make(chan struct{})}
+	f := &fakeConn{in: make(chan dgram), bwake: make(chan struct{}), s: s}
 	var accepted []*cconn
 	listenerCloseCalled := false
 	f.onClose = func() {
@@ -166,6 +168,7 @@ func runListenerConc(h *common.History, seed uint64) {
 	}
 	for i, n := 0, rng.IntN(4); i < n; i++ {
 		acceptsBeforeClose++
+		closeAtOnce := rng.IntN(2) == 0 // the caller is done with the connection as soon as it has it
 		launch("accept", func() {
 			c, err := l.Accept()
 			if err != nil {
@@ -182,6 +185,10 @@ func runListenerConc(h *common.History, seed uint64) {
 			// an accepted connection must be able to send until it is closed
 			if _, err := c.Write([]byte{7}); err != nil && !cc.closeCalled {
 				flags |= lfWriteFailed
+			}
+			if closeAtOnce {
+				cc.closeCalled = true
+				_ = c.Close()
 			}
 		})
 	}
@@ -270,6 +277,11 @@ func runListenerConc(h *common.History, seed uint64) {
 	}
 	if !f.isClosed() {
 		flags |= lfSocketLeak
+	}
+	if flags != 0 && os.Getenv("UDPL_DEBUG") != "" {
+		for _, e := range s.Log {
+			fmt.Fprintf(os.Stderr, "g%d(%s) %s %s %d\n", e.G, s.Gs[max(e.G, 0)].Name, e.Kind, e.Label, e.K)
+		}
 	}
 	h.Conf = []string{"9", common.I(seed)}
 	h.Ops = [][]string{{common.I(len(s.Log)), common.I(len(accepted)), common.I(len(pending))}}
